@@ -230,6 +230,7 @@ def run(prog, rep, tier, cfg):
     X.accumulator_integrity('K12', 'running-totals', ['fil_actor_verifreg', 'fil_actor_datacap'], 'running totals of amounts')
     X.no_dropped_results('K14', 'results-not-discarded', ['fil_actor_verifreg', 'fil_actor_datacap'], 'no Result of a call is discarded')
     X.tolerated_failures('K15', 'tolerated-failures', ['fil_actor_verifreg', 'fil_actor_datacap'], 'tolerated failures are the reviewed ones')
+    X.write_sites_preserved('K16', 'updates-present', 'fil_actor_verifreg', ['State.verifiers', 'State.allocations', 'State.claims', 'State.next_allocation_id', 'State.remove_data_cap_proposal_ids'], 'state updates do not disappear')
 
 
 
